@@ -60,6 +60,12 @@ func TestVerif_C08_RaftLarge(t *testing.T) {
 	caseNo := 0
 	rapid.Check(t, func(rt *rapid.T) {
 		caseNo++
+		// every case leaves megabytes in the raft log store, which lives in memory (/dev/shm); a fresh backend every
+		// 256 MiB keeps a long run's footprint flat (seen: 2.4 GB per shard x 16 shards in the thorough tier)
+		if env.written > 256<<20 {
+			env.shut()
+			env = c08NewEnv(t)
+		}
 		b := env.b
 		prefix := fmt.Sprintf("L%d-%d/", caseNo, rapid.IntRange(0, 1<<30).Draw(rt, "salt"))
 		keys := []string{"a/k0", "a/k1", "b/k2", "k3"}
@@ -152,6 +158,7 @@ func TestVerif_C08_RaftLarge(t *testing.T) {
 			switch kind {
 			case "put":
 				v := nextVal(c08LargeSizes[rapid.IntRange(0, len(c08LargeSizes)-1).Draw(rt, "size")])
+				env.written += int64(len(v))
 				if err := b.Put(ctx, &physical.Entry{Key: prefix + k, Value: []byte(v)}); err != nil {
 					rec.Violation(rt, "plain-write-error", detail(), "put %s=%s: %v", k, c08LargeShow(v), err)
 				}
@@ -249,6 +256,7 @@ func TestVerif_C08_RaftLarge(t *testing.T) {
 					mustFail = false
 				}
 				mustSucceed := x.writesSinceBegin == 0 || len(x.overlay) == 0
+				env.written += int64(x.bytes)
 				err := x.tx.Commit(ctx)
 				x.open = false
 				chunked := x.bytes > 512<<10
